@@ -42,3 +42,61 @@ def neutron_world(ctx, arrays=(), energy_dependent=(), **kw):
             w.set(nsf, nsf_table=(XP, FP), is_energy_dependent=True)
         w.set(base, neutron=nsf)
     return w
+
+
+def kernel(ctx):
+    """The package function whose result neutron_scattering returns (its last step is a tail call): found through the
+    source, not by name."""
+    import ast
+    fns = ctx.src.func("nsf.neutron_scattering")
+    callees = []
+    for node in ast.walk(fns.node):
+        if isinstance(node, ast.Return) and isinstance(node.value, ast.Call) and isinstance(node.value.func, ast.Name):
+            r = ctx.src.resolve(fns.module, node.value.func.id)
+            if r and r[0] == "func" and r[1] not in callees:
+                callees.append(r[1])
+    if len(callees) != 1:
+        from ptstat import AnalysisError
+        raise AnalysisError(f"expected neutron_scattering to return the result of one package function, found {callees}")
+    return callees[0]
+
+
+def kernel_roles(ctx, I, ns, comp, rho, lam):
+    """(kernel qual, {role: parameter name}) - the kernel's parameters identified by what neutron_scattering hands them: the
+    wavelength itself, the only argument that scales with the density, the complex sum of b_c, the sum of sigma_s."""
+    import sympy as sp
+    from ptstat import AnalysisError
+    from ptstat.symval import SymRaise
+    kq = kernel(ctx)
+    ksig = [a.arg for a in ctx.src.func(kq).node.args.args]
+    seen_call = {}
+
+    def spy(I_, args, kw):
+        bound = dict(zip(ksig, args)); bound.update(kw)
+        seen_call.update(bound)
+        raise SymRaise("StopIteration", "kernel reached")
+    I.stubs[kq] = spy
+    try:
+        I.call(ns, [dict(comp)], {"density": rho, "wavelength": lam})
+    except SymRaise:
+        pass
+    finally:
+        del I.stubs[kq]
+    roles = {}
+    for pname, val in seen_call.items():
+        try:
+            e = sp.sympify(val)
+        except Exception:
+            continue
+        names = {str(x) for x in e.free_symbols}
+        if e == lam:
+            roles["wavelength"] = pname
+        elif "rho" in names:
+            roles["number_density"] = pname
+        elif any(n.startswith(("br_", "bi_")) for n in names):
+            roles["b_c"] = pname
+        elif any(n.startswith("s_") for n in names):
+            roles["sigma_s"] = pname
+    if set(roles) != {"wavelength", "number_density", "b_c", "sigma_s"}:
+        raise AnalysisError(f"cannot identify the arguments neutron_scattering passes to {kq}: {sorted(roles)} of {ksig}")
+    return kq, roles
